@@ -12,6 +12,9 @@ returns a shape tag and a message.
                                      identified by (batch, position); priority order is
                                      the lexicographic order on those)
   rank-order / rank-pick             the job goes to a free worker of minimal score
+  hard-timeout-ignored               a result processed after the hard deadline ends the batch
+  request-never-issued-with-peer-available
+                                     at rest, no request of a live batch waits while a connected peer is free
 -/
 import Neutrino.Model.Dispatcher
 namespace Neutrino.Disp
@@ -29,6 +32,8 @@ inductive Obs where
   | final (counts : List (Nat × Nat))
   | hardPassed (b : Nat)                      -- the hard deadline the harness scripted for batch b has passed
   | resultDone                                -- the dispatcher has finished processing the last reported result
+  | connected (p : Nat)                       -- a peer with address p was handed to the work manager
+  | quiescent                                 -- every earlier event has been fully processed, every offered job taken
 deriving Repr
 
 structure OSt where
@@ -42,6 +47,7 @@ structure OSt where
   quit      : Bool := false
   hardDue   : List Nat := []          -- batches whose hard deadline has passed
   lastRes   : Option Nat := none      -- batch of the job whose result was reported last
+  conn      : List Nat := []          -- addresses of the peers that are connected (their worker has not exited)
 deriving Repr
 
 def reqLt (a b : Req) : Bool := a.1 < b.1 || (a.1 == b.1 && a.2 < b.2)
@@ -75,7 +81,23 @@ def obsStep (o : OSt) : Obs → OSt × List Fail
       [("rank-order", "free workers were not ordered by score")]
     ({ o with lastOrder := l }, f)
   | .exited p =>
-    ({ o with lastOrder := o.lastOrder.map (fun x => if x.1 == p then (x.1, x.2.1, false) else x) }, [])
+    ({ o with lastOrder := o.lastOrder.map (fun x => if x.1 == p then (x.1, x.2.1, false) else x),
+              conn := o.conn.filter (fun x => !(x == p)),
+              held := o.held.filter (fun x => !(x.1 == p)) }, [])
+  | .connected p =>
+    ({ o with conn := p :: o.conn.filter (fun x => !(x == p)),
+              held := o.held.filter (fun x => !(x.1 == p)) }, [])
+  | .quiescent =>
+    -- "unanswered requests are re-issued to an available peer": with the dispatcher at rest, a request of a
+    -- live batch is never left waiting while a connected peer holds no job
+    if o.quit then (o, []) else
+    let free := o.conn.filter (fun p => !(o.held.any (fun x => x.1 == p)))
+    let waiting := o.queued.filter (fun q => !hasVerdict o q.1)
+    match free, waiting with
+    | p :: _, q :: _ =>
+      (o, [("request-never-issued-with-peer-available",
+            s!"request {q.1}.{q.2} of live batch {q.1} is waiting although connected peer {p} holds no job")])
+    | _, _ => (o, [])
   | .dispatched p idx r =>
     let f1 : List Fail :=
       match o.idxOf.find? (fun x => x.1 == r) with
@@ -156,6 +178,8 @@ deriving Repr
 def realStep : RObs → List Fail
   | .batch i kind none _ _ =>
     if i ≥ 2 then [("later-batch-starved", s!"batch {i}, submitted after an earlier batch had ended and with every peer answering, got no verdict before its deadline")]
+    else if kind == "reconnect" then
+      [("request-never-issued-with-peer-available", s!"batch {i} got no verdict: its requests were never served although peers had (re)connected")]
     else if kind == "failonly" || kind == "hard" then
       [("hard-timeout-ignored", s!"batch {i} ({kind}) got no verdict although results kept arriving after its hard deadline")]
     else [("batch-never-ended", s!"batch {i} got no verdict although its timeout / cancellation had passed")]
